@@ -10,7 +10,7 @@ def main():
         i = args.index('--tier'); tier = args[i + 1]; del args[i:i + 2]
     claimed = [c['property_id'] for c in json.load(open(os.path.join(ROOT, 'MANIFEST.json')))['checks']]
     seeds = args or sorted(d for d in os.listdir(os.path.join(ROOT, 'seeded')) if re.match(r'C\d+-\d+$', d))
-    resf = os.path.join(ROOT, 'seeded', 'RESULTS.json')
+    resf = os.path.join(ROOT, "seeded", os.environ.get("SEED_RESULTS", "RESULTS.json"))
     res = json.load(open(resf)) if os.path.exists(resf) else {}
     for s in seeds:
         prop = s.split('-')[0]
